@@ -10,7 +10,7 @@ import (
 
 func init() {
 	props["C04"] = c04
-	floors["C04"] = map[string]int{"C04.R1": 3, "C04.R2": 3, "C04.R3": 4, "C04.R4": 5, "C04.R5": 1, "C04.R6": 2}
+	floors["C04"] = map[string]int{"C04.R1": 3, "C04.R2": 4, "C04.R3": 4, "C04.R4": 5, "C04.R5": 1, "C04.R6": 2}
 }
 
 // tunnelCopier describes one `go copier(dst, src, done)` of the blind tunnel.
@@ -165,6 +165,27 @@ func c04(r *Report) {
 			r.Paths++
 			n := rc[ret]
 			r.Decide("path", fmt.Sprintf("(*M.Proxy).handleConnectRequest: receives before tunnel exit #%d", k+1), n.Min >= len(cops), fmt.Sprintf("%v receives for %d copiers", n, len(cops)), fmt.Sprintf("only %v receives on the done channel before returning with %d copiers running: a connection is closed under a live copier", n, len(cops)), ret.Pos())
+		}
+		// connections are not closed under a live copier
+		{
+			var recvs []ssa.Instruction
+			for _, in := range instrs(hcr) {
+				if isRecv(in) {
+					recvs = append(recvs, in)
+				}
+			}
+			bad := false
+			var pos token.Pos = hcr.Pos()
+			if len(recvs) > 0 {
+				lastRecv := recvs[len(recvs)-1]
+				for i := range g.Reach([]ssa.Instruction{cops[0].Go}, false, func(i ssa.Instruction) bool { return i == lastRecv }) {
+					if cc, ok := i.(*ssa.Call); ok && (calleeName(cc) == "(net.Conn).Close" || calleeName(cc) == "(io.Closer).Close") {
+						bad = true
+						pos = cc.Pos()
+					}
+				}
+			}
+			r.Decide("path", "(*M.Proxy).handleConnectRequest: no connection is closed between the start of the copiers and the last join", !bad, "closes happen only after both copiers were joined (deferred)", "a tunnel connection is closed while a copier may still be relaying the other direction: bytes sent after one side's half-close are lost", pos)
 		}
 		for _, c := range cops {
 			isSend := func(i ssa.Instruction) bool {
